@@ -101,7 +101,7 @@ def c15():
     if chk.tier == "thorough":
         exported = export_storage(chk, "MCStorage_txn.cfg", timeout=3000)
         exported += export_storage(chk, "MCStorage_sim.cfg", simulate=f"num=40 -depth 40 -seed {chk.seed}")
-        limit = 20000
+        limit = 9000
     else:
         exported = export_storage(chk, "MCStorage_quick.cfg")
         limit = 5000
@@ -143,7 +143,7 @@ def c16():
     exported = export_storage(chk, "MCStorage_cache.cfg")
     if chk.tier == "thorough":
         exported += export_storage(chk, "MCStorage_sim.cfg", simulate=f"num=40 -depth 50 -seed {chk.seed + 1}")
-        limit = 12000
+        limit = 8000
     else:
         limit = 4000
     vacuity_guard(chk, "MCStorage_cache_pinned.cfg", "cache filled before the database write")
